@@ -171,6 +171,44 @@ def facts_aritygen(repo, lean):
 
 
 
+def facts_atom(repo, lean):
+    """Tie C for C05 / C06 / C19 / C16: harness/cmd/atomfacts (go/ast + go/types, build tag verif) extracts from the WORKING TREE,
+    for every function / method / closure of internal/atomic/atomic.go, future.go, promise/*.go, future/future_op.go,
+    mutable/copyonwrite.go and the three Memoize functions, the shape (sequence / branch / loop) of its shared-memory events
+    (yield <label>, load, store, cas, lock, unlock, once.Do, append, call <callee in the set>, user callback, plain reads / writes of
+    closure-shared variables and assigned fields, go, spawn hook, return, panic, any other synchronisation construct) and writes
+    FpVerif/Gen/AtomFacts.lean.  The committed theorems of Spec/C05Facts, C19Facts, C06Facts, C16AtomFacts `decide` on that table:
+    one yield immediately in front of every access on every path, no two non-commuting accesses in one atomic block, stores under
+    the lock, per-function skeleton == the skeleton of the Lean step machine (pc constructor <-> block), the set of functions
+    reaching the cell."""
+    out = os.path.join(lean, 'FpVerif', 'Gen', 'AtomFacts.lean')
+    os.makedirs(os.path.dirname(out), exist_ok=True)
+    harness = os.path.join(os.path.dirname(lean), 'harness')
+    env = dict(os.environ, GOFLAGS='-mod=mod', GOPROXY='off', GOSUMDB='off', GOTOOLCHAIN='local')
+    tmp_out = out + '.new.%d' % os.getpid()
+    p = subprocess.run(['go', 'run', './cmd/atomfacts', repo, tmp_out], cwd=harness, env=env, stdout=subprocess.PIPE,
+                       stderr=subprocess.STDOUT, text=True)
+    if p.returncode != 0 or not os.path.exists(tmp_out):
+        # a tree the extractor cannot type-check has no table: the theorems must not be discharged against a stale one
+        if os.path.exists(out):
+            os.remove(out)
+        return dict(error='atomfacts failed: ' + p.stdout[-800:], obligations=1)
+    # keep the old file (and its build products) when the table did not change (several properties regenerate it)
+    if not os.path.exists(out) or open(out).read() != open(tmp_out).read():
+        os.replace(tmp_out, out)
+    else:
+        os.remove(tmp_out)
+    info = json.loads(p.stdout.strip().split('\n')[-1])
+    info['obligations'] = 1
+    info['generated'] = 'FpVerif/Gen/AtomFacts.lean'
+    if info.get('warnings'):
+        info['error'] = 'atomfacts: constructs outside the extracted fragment: ' + p.stdout[-800:]
+    return info
+
+
+
+
+
 import re as _re
 
 def project_future(line):
@@ -324,7 +362,8 @@ CHECKS = {
                      'arity 5'],
     ),
     'C05': dict(
-        spec=['FpVerif.Spec.C05'],
+        spec=['FpVerif.Spec.C05', 'FpVerif.Spec.C05Facts'],
+        facts=facts_all(facts_atom),
         harnesses=[H('promise', 'oracle_promise', 4000, 400000)],
         level='proof',
         modelled='future.go: Promise (Complete/Success/Failure, tryCompleteAndGetListeners, dispatchOrAddCallback, '
@@ -339,7 +378,8 @@ CHECKS = {
                      'the stress part (real goroutines, no hooks) is not reproducible from the seed'],
     ),
     'C19': dict(
-        spec=['FpVerif.Spec.C19'],
+        spec=['FpVerif.Spec.C19', 'FpVerif.Spec.C19Facts'],
+        facts=facts_all(facts_atom),
         harnesses=[H('cow', 'oracle_cow', 4000, 400000)],
         level='proof',
         modelled='mutable/copyonwrite.go: load, copyOnWrite, Get, Size, Iterator, Updated, Removed, UpdatedWith, '
@@ -351,7 +391,8 @@ CHECKS = {
                      'the stress part (real goroutines, no hooks) is not reproducible from the seed'],
     ),
     'C06': dict(
-        spec=['FpVerif.Spec.C06', 'FpVerif.Spec.C06Sound', 'FpVerif.Spec.C06Live', 'FpVerif.Spec.C06Chain', 'FpVerif.Spec.C06Drain', 'FpVerif.Spec.C06Once', 'FpVerif.Spec.C06HO', 'FpVerif.Spec.C14MiscFut',
+        facts=facts_all(facts_atom),
+        spec=['FpVerif.Spec.C06Facts', 'FpVerif.Spec.C05Facts', 'FpVerif.Spec.C06', 'FpVerif.Spec.C06Sound', 'FpVerif.Spec.C06Live', 'FpVerif.Spec.C06Chain', 'FpVerif.Spec.C06Drain', 'FpVerif.Spec.C06Once', 'FpVerif.Spec.C06HO', 'FpVerif.Spec.C14MiscFut',
               # the task-atomic model ASSUMES that a promise is an atomic single-assignment cell with exactly-once delivery at the level of the
               # individual atomic steps; that reduction is C05, so its theorems and its atomic-step harness are part of this check too
               # (seeds C06-2 / C06-6: a completion that gives up after a lost CAS leaves the derived future pending for ever)
@@ -457,8 +498,8 @@ CHECKS = {
                      'most one element (single use / pull order of iterators: C12, C20)'],
     ),
     'C16': dict(
-        spec=['FpVerif.Spec.C16', 'FpVerif.Spec.C16Stack', 'FpVerif.Spec.C16Facts', 'FpVerif.Spec.C01Fn', 'FpVerif.Spec.C16Panic', 'FpVerif.Spec.C16PanicEval'],
-        facts=facts_factx,
+        spec=['FpVerif.Spec.C16', 'FpVerif.Spec.C16Stack', 'FpVerif.Spec.C16Facts', 'FpVerif.Spec.C01Fn', 'FpVerif.Spec.C16Panic', 'FpVerif.Spec.C16PanicEval', 'FpVerif.Spec.C16AtomFacts'],
+        facts=facts_all(facts_factx, facts_atom),
         harnesses=[H('eval', 'oracle_eval', 4000, 200000, spec_level=True,
                      extra=dict(quick=['-deep', '2000000'], thorough=['-deep', '20000000'])),
                    # call depth of every logging user frame (runtime.Callers, relative to the frame calling Run/Get) vs the frame-instrumented model
